@@ -24,6 +24,12 @@ type Clause struct {
 	Expr  ast.Expr
 	Pos   string
 	Known string // non-empty: this clause is expected to fail (documented finding id)
+	// candidate loop invariants (Houdini): Candidate clauses are tried before the check proper;
+	// those that are not inductive together with the declared invariants are Dropped, the others
+	// are Proved by that pre-pass and then only assumed.
+	Candidate bool
+	Dropped   bool
+	Proved    bool
 }
 
 type LetSpec struct {
@@ -521,12 +527,15 @@ func (db *ContractDB) loadContractFile(path, pkg string) error {
 			case curM != nil:
 				curM.Props = append(curM.Props, ps...)
 			}
-		case "requires", "ensures", "invariant", "assert", "assume", "where", "decreases", "entry-assume", "scope":
+		case "requires", "ensures", "invariant", "candidate", "assert", "assume", "where", "decreases", "entry-assume", "scope":
 			c, err := parseClause(rest, pos)
 			if err != nil {
 				return err
 			}
 			switch {
+			case curF != nil && kw == "candidate" && curLoop != nil:
+				c.Candidate = true
+				curLoop.Invariants = append(curLoop.Invariants, c)
 			case curF != nil && kw == "requires":
 				curF.Requires = append(curF.Requires, c)
 			case curF != nil && kw == "entry-assume":
